@@ -9,14 +9,23 @@ def render(cases):
     for n, c in enumerate(cases):
         sh, ex = c["shape"], c["exp"]
         recv, nreq = sh["recv"], sh["nreq"]
-        body = " + ".join(["1000u32"] + ["self.req%d(a + %d)" % (n, i) for i in range(nreq)])
+        calls = ["self.req%d(a + %d)" % (n, i) for i in range(nreq)]
+        if sh.get("consume"):
+            calls[-1] = "self.reqp%d(a + %d)" % (n, nreq - 1)       # required method taking the pointer by value: last use of self
+        body = " + ".join(["1000u32"] + calls)
         L.append("#[unimock(api=M%d)]" % n)
         L.append("trait Tr%d {" % n)
         L.append("    fn req%d(&self, x: u8) -> u32;" % n)
+        if sh.get("consume"):
+            L.append("    fn reqp%d(%s, x: u8) -> u32;" % (n, RECV[recv]))
         L.append("    fn dflt%d(%s, a: u8, b: &str) -> u32%s { rec_a(vec![sh(&a), sh(&b)]); %s }" % (n, RECV[recv], " where Self: Sized" if recv == "own" else "", body))
         L.append("}")
         reqs = ex["reqcalls"]
         clauses = []
+        if sh.get("consume"):
+            # the consuming required method is answered by its own counted pattern; the others lose one call
+            reqs = reqs[:-1]
+            clauses.append("M%d::reqp%d.each_call(matching!(_)).answers(&|_, x| x as u32 * 10).n_times(1)" % (n, n))
         if sh["explicit"]:
             clauses.append("M%d::dflt%d.each_call(matching!(5, \"s\")).applies_default_impl().once()" % (n, n))
         if reqs:
